@@ -210,6 +210,7 @@ pub struct AdmSwarm {
     pub w_wrong_role: u32,
     pub w_withdraw_fees: u32,
     pub w_account_admin: u32,
+    pub w_emi: u32,
 }
 
 impl AdmSwarm {
@@ -238,6 +239,7 @@ impl AdmSwarm {
             w_wrong_role: 0,
             w_withdraw_fees: 0,
             w_account_admin: 0,
+            w_emi: 0,
         }
     }
     pub fn adm(rng: &mut Rng) -> Self {
@@ -266,7 +268,19 @@ impl AdmSwarm {
             w_wrong_role: r(1, 5),
             w_withdraw_fees: r(0, 4),
             w_account_admin: r(1, 5),
+            w_emi: r(0, 4),
         }
+    }
+    pub fn emi(rng: &mut Rng) -> Self {
+        let mut s = Self::none();
+        let mut r = |lo: u64, hi: u64| rng.range(lo, hi) as u32;
+        s.w_emissions = r(6, 14);
+        s.w_emi = r(15, 40);
+        s.w_withdraw_fees = r(4, 12);
+        s.w_configure_bank = r(0, 3);
+        s.w_freeze_account = r(0, 2);
+        s.w_purge = r(0, 2);
+        s
     }
     pub fn pause(rng: &mut Rng) -> Self {
         let mut s = Self::none();
@@ -305,6 +319,7 @@ impl AdmSwarm {
             self.w_wrong_role,
             self.w_withdraw_fees,
             self.w_account_admin,
+            self.w_emi,
         ]
     }
     pub fn total(&self) -> u32 {
@@ -560,6 +575,7 @@ pub fn step_adm(sim: &mut Sim, ctx: &mut Ctx, adm: &AdmSwarm) -> Option<Tx> {
                 }
             }
         }
+        23 => return step_emi(sim, ctx),
         _ => {
             // account-level admin-ish user actions: transfer, close, frozen-account operation by admin
             let us: Vec<(usize, Pubkey)> = ctx
@@ -620,4 +636,85 @@ pub fn step_adm(sim: &mut Sim, ctx: &mut Ctx, adm: &AdmSwarm) -> Option<Tx> {
     };
     let _ = I80F48::ZERO;
     Some(tx)
+}
+
+/// EMI actions: settle / withdraw / permissionless withdraw of emissions, destination update.
+pub fn step_emi(sim: &mut Sim, ctx: &mut Ctx) -> Option<Tx> {
+    // banks with emissions configured
+    let mut cands: Vec<(usize, crate::world::BankInfo, Bank)> = Vec::new();
+    for (gi, g) in ctx.world.groups.iter().enumerate() {
+        for b in &g.banks {
+            if let Some(bank) = model::bank_of(&sim.store, &b.keys.bank) {
+                if bank.emissions_mint != Pubkey::default() {
+                    cands.push((gi, b.clone(), bank));
+                }
+            }
+        }
+    }
+    if cands.is_empty() {
+        return None;
+    }
+    let (gi, b, bank) = ctx.rng.pick(&cands).clone();
+    let us: Vec<(usize, Pubkey)> = ctx
+        .world
+        .users
+        .iter()
+        .enumerate()
+        .flat_map(|(ui, u)| u.maccounts.iter().filter(|(x, _)| *x == gi).map(move |(_, m)| (ui, *m)))
+        .collect();
+    if us.is_empty() {
+        return None;
+    }
+    let (ui, ma) = *ctx.rng.pick(&us);
+    let u = ctx.world.users[ui].clone();
+    let mint = bank.emissions_mint;
+    let mint_acc = sim.store.get(&mint)?.clone();
+    let tp = mint_acc.owner;
+    // the user's own token account for the emissions mint (fixture, lazily)
+    let user_ta = {
+        let mut k = u.authority.to_bytes();
+        let m = mint.to_bytes();
+        for i in 0..32 {
+            k[i] = k[i].wrapping_add(m[i]).rotate_left(1);
+        }
+        Pubkey::new_from_array(k)
+    };
+    if sim.store.get(&user_ta).is_none() {
+        sim.apply(Event::SetAccount {
+            key: user_ta,
+            account: Some(crate::fixtures::token_account(&mint, &mint_acc, &u.authority, 0)),
+            why: "fixture_emissions_user_account",
+        });
+    }
+    match ctx.rng.below(6) {
+        0 | 1 => Some(Tx::one("anyone", ix::settle_emissions(ma, b.keys.bank))),
+        2 => Some(Tx::one("user", ix::withdraw_emissions(&b.keys, ma, u.authority, mint, tp, user_ta))),
+        3 => {
+            // redirect to somebody else's account (allowed: the authority chooses)
+            let dst = if ctx.rng.chance(1, 2) { user_ta } else { ctx.world.stranger_tokens.values().next().cloned().unwrap_or(user_ta) };
+            Some(Tx::one("user", ix::withdraw_emissions(&b.keys, ma, u.authority, mint, tp, dst)))
+        }
+        4 => {
+            let wallet = if ctx.rng.chance(2, 3) { u.authority } else { ctx.world.stranger };
+            Some(Tx::one("user", ix::update_emissions_destination(ma, u.authority, wallet)))
+        }
+        _ => {
+            let acc = model::account_of(&sim.store, &ma)?;
+            let wallet = acc.emissions_destination_account;
+            let expected = ix::ata(&wallet, &mint, &tp);
+            let dst = if wallet != Pubkey::default() && ctx.rng.chance(4, 5) {
+                if sim.store.get(&expected).is_none() {
+                    sim.apply(Event::SetAccount {
+                        key: expected,
+                        account: Some(crate::fixtures::token_account(&mint, &mint_acc, &wallet, 0)),
+                        why: "fixture_emissions_ata",
+                    });
+                }
+                expected
+            } else {
+                user_ta
+            };
+            Some(Tx::one("anyone", ix::withdraw_emissions_permissionless(&b.keys, ma, mint, tp, dst)))
+        }
+    }
 }
